@@ -1,8 +1,10 @@
 package sonic
 
 import (
+	"io"
 	"net"
 	"os"
+	"sync/atomic"
 	"syscall"
 
 	"github.com/talostrading/sonic/internal"
@@ -13,9 +15,10 @@ import (
 var _ Listener = &listener{}
 
 type listener struct {
-	ioc  *IO
-	slot internal.Slot
-	addr net.Addr
+	ioc    *IO
+	slot   internal.Slot
+	addr   net.Addr
+	closed uint32
 }
 
 // Listen creates a Listener that listens for new connections on the local address.
@@ -111,6 +114,11 @@ func (l *listener) accept() (Conn, error) {
 }
 
 func (l *listener) Close() error {
+	// Only the first Close owns the descriptor: afterwards the kernel may hand
+	// the same number to someone else.
+	if !atomic.CompareAndSwapUint32(&l.closed, 0, 1) {
+		return io.EOF
+	}
 	_ = l.ioc.UnsetReadWrite(&l.slot)
 	l.ioc.Deregister(&l.slot)
 	return syscall.Close(l.slot.Fd)
